@@ -926,8 +926,8 @@ def _approximately_project_trapezoid(weights, lattice_sizes, units,
   for main_dim, cond_dim, cond_direction in trapezoid_trusts or []:
     layers = _unstack_nd(weights, [main_dim, cond_dim])
     max_main_dim = lattice_sizes[main_dim] - 1
-    same_edgeworth = (main_dim, cond_dim,
-                      cond_direction) in set(edgeworth_trusts or [])
+    same_edgeworth = (main_dim, cond_dim, cond_direction) in set(
+        tuple(trust) for trust in edgeworth_trusts or [])
     if cond_direction < 0:
       layers = _reverse_second_list_dimension(layers)
     lhs_update, rhs_update = 0, 0
@@ -1918,6 +1918,13 @@ def project_by_dykstra(weights,
     joint_monotonicities = []
   if joint_unimodalities is None:
     joint_unimodalities = []
+  # Single constraints serve as dictionary keys below. After a round trip of the
+  # layer config through JSON (saved models) they arrive as lists.
+  edgeworth_trusts = [tuple(c) for c in edgeworth_trusts]
+  trapezoid_trusts = [tuple(c) for c in trapezoid_trusts]
+  monotonic_dominances = [tuple(c) for c in monotonic_dominances]
+  range_dominances = [tuple(c) for c in range_dominances]
+  joint_monotonicities = [tuple(c) for c in joint_monotonicities]
   if units > 1:
     lattice_sizes = lattice_sizes + [int(units)]
     monotonicities = monotonicities + [0]
